@@ -60,6 +60,12 @@ CHECKS = {
  "C18": ("exploration", "exhaustive configuration grid through every construction path, then M-panic over real loopback sockets, scripted queries of every protocol family, Eco over loopback HTTP and the CLI binary",
          "All 1 875 grid points ((read, write, connect) in {None, 0, 1 ns, 1 ms, u64::MAX s}^3 x 5 retry counts x {new, clap, serde}) + Default: a zero duration must be rejected by every path; accepted values are used to build real UDP/TCP sockets, to run one scripted query per protocol family against a valid, a malformed and a silent server (step-monitor cuts are counted, not judged), for Eco over HTTP and for gamedig_cli flag invocations; no panic, no exit status 101.",
          "clap expresses whole seconds only; CLI runs cut after 6 s are reported, not judged.", "4 C18"),
+ "C12": ("fault_enumeration", "strace syscall-log monitor with an offline checker + wall-clock/err-class monitor against real loopback servers that fall silent / refuse + echo-peer integrity monitor + scripted-vs-real fidelity self-test",
+         "Real sockets (hook compiled in, no transport installed). The strace log of a child doing new+send+receive is checked for SO_RCVTIMEO/SO_SNDTIMEO on every socket before its first I/O, a non-blocking connect polled with the configured timeout, unmodified wire bytes and the caller's IPv4/IPv6 destination; 13 protocol entry points + Eco run against loopback servers silent after 0-3 replies / never writing / refusing, for timeouts {50,150,400} ms x retries 0-2 x v4/v6 (error class; elapsed bound with 3 s slack, only a 3-fold breach counts); direct send/receive against an echo peer for boundary payload sizes and requested sizes; the same model server scripted and over loopback must give identical results.",
+         "Wall-clock verdicts need three consecutive breaches; the syscall log is the load-independent part; ptrace must be permitted for strace.", "4 C12"),
+ "C20": ("exploration", "M-panic + self-consistency oracle over names generated from the documented name grammar",
+         "3e5 (quick) / 2e7 (thorough) names (words, non-ASCII words, dotted acronyms, roman numerals, numbers in every position, glued letter-digit words, hyphenation, year ranges, bracketed year/edition, ' - Mod' suffix) and lists of 1-4 games: no panic; the set of expected ids is independent of the wrong proposal, every reported expected id is accepted, candidates are accepted iff reported; the shipped GAMES table passes.",
+         "Names with text directly after 'number-' (documented as unsupported) and leading numbers above 15 digits are observe-only.", "4 C20"),
 }
 NOT_YET = {}
 for i in range(1, 21):
